@@ -8,6 +8,7 @@ import (
 	"os/exec"
 	"path/filepath"
 	"sort"
+	"strings"
 	"sync"
 	"sync/atomic"
 	"time"
@@ -52,13 +53,20 @@ func lockContent(dir string) string {
 	return string(b)
 }
 
-func lockCfg(dir string) *comet.StorageConfig {
+func lockCfg(dir string) *comet.StorageConfig { return lockCfgV(dir, "vtm") }
+
+// lockCfgV: the templates a session is opened with ("vtm", "vt", "v"): successive sessions of one directory may differ
+func lockCfgV(dir, variant string) *comet.StorageConfig {
 	cfg := comet.DefaultStorageConfig(dir)
 	cfg.CompactionInterval = time.Hour
 	v, _ := comet.NewFlatIndex(2, comet.L2Squared)
 	cfg.VectorIndexTemplate = v
-	cfg.TextIndexTemplate = comet.NewBM25SearchIndex()
-	cfg.MetadataIndexTemplate = comet.NewRoaringMetadataIndex()
+	if strings.Contains(variant, "t") {
+		cfg.TextIndexTemplate = comet.NewBM25SearchIndex()
+	}
+	if strings.Contains(variant, "m") {
+		cfg.MetadataIndexTemplate = comet.NewRoaringMetadataIndex()
+	}
 	return cfg
 }
 
@@ -80,9 +88,18 @@ func useHandle(st *comet.PersistentHybridIndex, what string, id int) error {
 			return nil // "not found" is not about ownership
 		}
 		return err
+	case "compact": // no result to report: must simply not blow up
+		st.TriggerCompaction()
+		return nil
 	default:
 		return st.Train([][]float32{{1, 2}})
 	}
+}
+
+// useGuarded runs one operation on a handle; a panic is recorded, not propagated
+func useGuarded(st *comet.PersistentHybridIndex, what string, id int) (err error, panicked bool) {
+	panicked = guard(func() { err = useHandle(st, what, id) })
+	return
 }
 
 // drvLockProc is the second operating-system process: it tries to open the directory, reports, and closes again.
@@ -134,8 +151,15 @@ func drvLock(args []string) error {
 				}
 				fault.Store(f)
 				os.MkdirAll(dir, 0755)
+				if rng.Intn(8) == 0 { // leftovers of an interrupted flush: component files of a segment that was never completed
+					n := 90 + rng.Intn(9)
+					for _, c := range []string{"hybrid", "vector", "text"}[:1+rng.Intn(3)] {
+						os.WriteFile(filepath.Join(dir, fmt.Sprintf("%s_%06d.bin.gz", c, n)), nil, 0644)
+					}
+				}
 				before := dirSig(dir)
-				st, err := comet.OpenPersistentHybridIndex(lockCfg(dir))
+				variant := []string{"vtm", "vtm", "vt", "v"}[rng.Intn(4)]
+				st, err := comet.OpenPersistentHybridIndex(lockCfgV(dir, variant))
 				fault.Store("none")
 				id := next
 				next++
@@ -167,9 +191,9 @@ func drvLock(args []string) error {
 				}
 				sort.Ints(ids)
 				id := ids[rng.Intn(len(ids))]
-				what := []string{"add", "addauto", "search", "flush", "remove", "train"}[rng.Intn(6)]
-				err := useHandle(handles[id], what, 100+step)
-				t.ev("use", E{"h": id, "what": what, "ok": err == nil})
+				what := []string{"add", "addauto", "search", "flush", "remove", "train", "compact", "add", "flush"}[rng.Intn(9)]
+				err, panicked := useGuarded(handles[id], what, 100+step)
+				t.ev("use", E{"h": id, "what": what, "ok": err == nil && !panicked, "panic": panicked, "void": what == "compact"})
 			default:
 				if !*procs {
 					continue
@@ -226,11 +250,11 @@ func drvLock(args []string) error {
 						go func(k int) {
 							defer inner.Done()
 							for j := 0; j < 3; j++ {
-								what := []string{"add", "search", "flush", "addauto"}[r.Intn(4)]
+								what := []string{"add", "search", "flush", "addauto", "compact"}[r.Intn(5)]
 								cu := seq.Add(1)
-								err := useHandle(st, what, 1000*h+10*k+j)
+								err, panicked := useGuarded(st, what, 1000*h+10*k+j)
 								ru := seq.Add(1)
-								emit("c.use", E{"h": h, "call": cu, "ret": ru, "ok": err == nil, "what": what})
+								emit("c.use", E{"h": h, "call": cu, "ret": ru, "ok": err == nil && !panicked, "what": what, "panic": panicked, "void": what == "compact"})
 							}
 						}(k)
 					}
